@@ -58,7 +58,9 @@ def impl_rows(c):
 
 def impl_rcv(c):
     from sageopt.relaxations import symbolic_correspondences as sc
-    g = st.build(c['g'])
+    # `graw`: the exponents as the caller writes them (two rows that differ beyond the 7th decimal only, e.g. 0.3 and 0.1 + 0.2); c['g']
+    # holds what the constructor makes of them (ONE row with the sum of the coefficients), which is what the model and the oracle see
+    g = st.build(c.get('graw', c['g']))
     ref = np.array([[float(F(x)) for x in r] for r in c['ref']], dtype=float).reshape(len(c['ref']), c['g']['n'])
     v = sc.relative_coeff_vector(g, ref)
     return {'c': [{'off': st.fr(x), 'co': []} for x in np.asarray(v, dtype=float).tolist()]}
@@ -205,6 +207,21 @@ def gen_rcv_case(rng, allow_missing):
         ref = rows + [r for r in extra if r not in rows]
         rng.shuffle(ref)
         return {'g': leaf(rows, cs, n, poly), 'ref': rows_json(ref), 'kind': 'near-twins'}
+    if rng.random() < 0.12:
+        # one exponent of g written twice, the copies differing beyond the 7th decimal: the constructor merges them
+        k = rng.randrange(m)
+        j = rng.randrange(n)
+        dup = list(rows[k])
+        dup[j] = dup[j] + rng.choice([F(2, 10 ** 9), F(-3, 10 ** 9), F(4, 10 ** 10)])
+        extra_c = F(rng.choice([-2, 1, 3, 4]))
+        raw_rows = rows + [dup]
+        raw_cs = cs + [frac_str(extra_c)]
+        order = list(range(len(raw_rows)))
+        rng.shuffle(order)
+        merged = list(cs)
+        merged[k] = frac_str(F(cs[k]) + extra_c)
+        return {'g': leaf(rows, merged, n, poly), 'graw': leaf([raw_rows[t] for t in order], [raw_cs[t] for t in order], n, poly),
+                'ref': rows_json(ref), 'kind': 'merged-rows'}
     if allow_missing and rng.random() < 0.25 and m >= 2:
         ref.remove(rows[rng.randrange(m)])
         kind = 'missing'
